@@ -162,7 +162,7 @@ class C06(Prop):
           'sub-balanced sets; two-ratio vector handed over as list / tuple / int ndarray / float ndarray; two dyadic probe matrices (zeros included for T2; the second one just outside the box, on the other side of zero, for an adaptor around a lossy one-way storage) plus one all-integer '
           'probe passed as an INTEGER-typed array; flows presented flat or (R, n) / (n,) or (1, n); .constraints read once or twice. non-trivial: the tree has >= 2 rows and some constraint with a '
           'Jacobian reads >= 2 variables')
-  sizes = {'quick': 700, 'thorough': 6000}
+  sizes = {'quick': 700, 'thorough': 4000}
   assumptions = ['oracle: central finite differences (h=1e-5 and 8e-5; entries where the two disagree are kinks and skipped) along every '
                  'coordinate when R*n <= 16, else 6 coordinates + 10 dense random directions; lossy-storage rows are moved off 0 first',
                  'oracle: every Jacobian of a list is asked for before any is converted (shared buffers), and a list already asked at one flow must answer at another like a freshly read list (memoisation)',
